@@ -1,6 +1,7 @@
 """C01 - compiled clauses compute exactly Prolog's answers, in order (claimed in part)."""
 from .. import rules_compile as rc
 from .. import rules_emit as re_
+from .. import rules_clause as rcl
 
 
 def check(repo, rep, tier):
@@ -14,9 +15,9 @@ def check(repo, rep, tier):
                        'that the answer sequence equals SLD resolution\'s for all programs and queries - a value-level statement.')
     re_.rule_anonymous_variables(cm, rep, 'C01.V1')
     re_.rule_variable_coverage(cm, rep, 'C01.V2')
-    re_.rule_declare_before_use(cm, rep, 'C01.V3')
-    re_.rule_head_arguments(cm, rep, 'C01.H1')
-    re_.rule_per_clause_stateless(cm, rep, 'C01.V6')
+    rcl.rule_clause_scope(cm, rep, 'C01.V3')
+    rcl.rule_clause_head(cm, rep, 'C01.H1')
+    rcl.rule_program_structure(cm, rep, 'C01.V6')
     rc.rule_body_rules(cm, rep, 'C01.N1', 'all', scope)
     rc.rule_exhaustive(cm, rep, 'C01.T1x')
     re_.rule_emitted_text_parses(cm, rep, 'C01.T1')
